@@ -24,13 +24,14 @@ def _wrap_choice(log):
     return orig, rec
 
 
-def voting_rules(m, k, lam, vp):
+def voting_rules(m, k, lam, vp, kapp=None):
+    kapp = k if kapp is None else kapp      # k-approval accepts any k >= 1 (k > m approves everybody); k-ARV needs k <= m
     """name -> factory(tie_breaker, zero_indexed) -> (score_fn, scf_fn)"""
     from socialchoicekit import deterministic_scoring as ds, deterministic_tournament as dt, elicitation_voting as ev
     from socialchoicekit.elicitation_utils import ValuationProfileElicitor
     out = {}
     for name, cls, args in [("plurality", ds.Plurality, {}), ("borda", ds.Borda, {}), ("veto", ds.Veto, {}), ("harmonic", ds.Harmonic, {}),
-                            ("kapproval", ds.KApproval, {"k": k}), ("copeland", dt.Copeland, {})]:
+                            ("kapproval", ds.KApproval, {"k": kapp}), ("copeland", dt.Copeland, {})]:
         out[name] = (lambda tb, z, cls=cls, args=args: cls(tie_breaker=tb, zero_indexed=z, **args), "profile")
     out["utilitarian"] = (lambda tb, z: ds.SocialWelfare(tie_breaker=tb, zero_indexed=z), "vals")
     out["karv"] = (lambda tb, z: ev.KARV(k=k, tie_breaker=tb, zero_indexed=z), "elicit")
@@ -50,16 +51,17 @@ def impl_vote(case):
     for it in case["items"]:
         try:
             P, m, vals, k, lam, seed = it["P"], it["m"], it["vals"], it["k"], it["lam"], it["seed"]
+            kapp = it.get("kapp") or k
             prof = V.profile_obj(P)
             vp = persist("vals", to_np(vals), ValuationProfile.of)
             # the utilitarian rule may get its own valuation matrix (near ties between the two leaders need not be consistent with P)
             vpu = persist("valsu", to_np(it["vals_util"]), ValuationProfile.of) if it.get("vals_util") else vp
             res = {}
-            for name, (mk, kind) in voting_rules(m, k, lam, vp).items():
+            for name, (mk, kind) in voting_rules(m, k, lam, vp, kapp).items():
                 r = {}
                 for zero in (True, False):
                     for tb in ("accept", "first", "random"):
-                        rule = persist_rule(("c13", name, k if name in ("kapproval", "karv") else lam if name == "prv" else 0, tb, zero), lambda: mk(tb, zero))
+                        rule = persist_rule(("c13", name, kapp if name == "kapproval" else k if name == "karv" else lam if name == "prv" else 0, tb, zero), lambda: mk(tb, zero))
                         log = []
                         orig, rec = _wrap_choice(log)
                         np.random.seed(seed)
@@ -76,7 +78,7 @@ def impl_vote(case):
                         r[f"{tb}:{int(zero)}"] = {"score": [fr(Fraction(float(x))) for x in sc], "out": [int(x) for x in np.atleast_1d(w)],
                                                   "scalar": bool(np.ndim(w) == 0), "choice": log}
                     if hasattr(rule, "swf") and kind == "profile":
-                        sw = persist_rule(("c13", name, k if name in ("kapproval", "karv") else lam if name == "prv" else 0, "accept", zero), lambda: mk("accept", zero)).swf(prof)
+                        sw = persist_rule(("c13", name, kapp if name == "kapproval" else k if name == "karv" else lam if name == "prv" else 0, "accept", zero), lambda: mk("accept", zero)).swf(prof)
                         r[f"swf:{int(zero)}"] = [[int(a), fr(Fraction(float(s)))] for a, s in zip(sw[0], sw[1])]
                 res[name] = r
             # STV in both conventions
@@ -91,9 +93,9 @@ def impl_vote(case):
             res["rand"] = {}
             for name, mk in [("plurality", lambda z: rs.RandomizedPlurality(zero_indexed=z)), ("borda", lambda z: rs.RandomizedBorda(zero_indexed=z)),
                              ("veto", lambda z: rs.RandomizedVeto(zero_indexed=z)), ("harmonic", lambda z: rs.RandomizedHarmonic(zero_indexed=z)),
-                             ("kapproval", lambda z: rs.RandomizedKApproval(k=k, zero_indexed=z))]:
+                             ("kapproval", lambda z: rs.RandomizedKApproval(k=kapp, zero_indexed=z))]:
                 for zero in (True, False):
-                    rule = persist_rule(("rand", name, k if name == "kapproval" else 0, zero), lambda: mk(zero))
+                    rule = persist_rule(("rand", name, kapp if name == "kapproval" else 0, zero), lambda: mk(zero))
                     log = []
                     orig, rec = _wrap_choice(log)
                     np.random.seed(seed)
@@ -195,7 +197,7 @@ def judge_vote(R, it, res, lean):
     if "exc" in res or "hang" in res:
         R.violation("property_violation", "total on a valid profile", ENTRY, it, impl_output=res, oracle="raised/hang")
         return
-    inp = {"P": P, "vals": it["vals"], "k": it["k"], "lambda": it["lam"], "seed": it["seed"]}
+    inp = {"P": P, "vals": it["vals"], "k": it["k"], "kapp": it.get("kapp"), "lambda": it["lam"], "seed": it["seed"]}
     if it.get("vals_util"):
         inp["vals_util"] = it["vals_util"]
     tied_any = False
@@ -257,7 +259,7 @@ def judge_vote(R, it, res, lean):
         sc = [Fraction(x) for x in r["score"]]
         cfg = {"rule": "randomized " + name, "zero_indexed": zero == "1"}
         # "probabilities proportional to the scores": the scores are those of the profile at hand (textbook definition, exact)
-        exact = V.exact_scores(name, it["k"], P, m)
+        exact = V.exact_scores(name, it.get("kapp") or it["k"], P, m)
         if any(not V.rel_close(a_, b_, Fraction(1, 10 ** 12)) for a_, b_ in zip(sc, exact)) or len(sc) != len(exact):
             R.violation("property_violation", "the randomized rule's scores are the scores of the profile it was given", f"{ENTRY}: Randomized{name}.score", inp,
                         impl_output=r["score"], oracle={"textbook_scores": [fr(x) for x in exact]}, config=cfg)
@@ -414,7 +416,7 @@ def run(R):
         m = R.rng.choice([1, 2, 3, 4, 4, 5, 6, 7, 8])
         n = R.rng.choice([1, 2, 3, 4, 6, 8, 9])
         P = V.structured_profile(R.rng, n, m) if R.rng.random() < 0.6 else V.rand_profile(R.rng, n, m)
-        it = {"P": P, "m": m, "vals": consistent_vals(R.rng, P, m), "k": R.rng.randint(1, m), "lam": R.rng.randint(1, m),
+        it = {"P": P, "m": m, "vals": consistent_vals(R.rng, P, m), "k": R.rng.randint(1, m), "kapp": (m + R.rng.randint(1, 2)) if t % 8 == 0 else None, "lam": R.rng.randint(1, m),
               "seed": R.rng.randrange(10 ** 6)}
         if m >= 2 and R.rng.random() < 0.3:
             # two leading alternatives whose total utility differs by a relative 1e-6 .. 1e-8: distinct scores, so exactly one maximiser
@@ -448,5 +450,5 @@ def replay(R, rep):
         judge_other(R, inp, res["results"][0] if "results" in res else {"hang": True})
     else:
         P = inp["P"]
-        run_vote(R, [{"P": P, "m": len(P[0]), "vals": inp["vals"], "k": inp["k"], "lam": inp["lambda"], "seed": inp["seed"], "vals_util": inp.get("vals_util")}])
+        run_vote(R, [{"P": P, "m": len(P[0]), "vals": inp["vals"], "k": inp["k"], "kapp": inp.get("kapp"), "lam": inp["lambda"], "seed": inp["seed"], "vals_util": inp.get("vals_util")}])
     R.extra.pop("_s", None)
